@@ -10,11 +10,12 @@
 //!   m      G | H | P<n> (POST with an n-byte request body that the handler reads to the end first)
 //!   kind   n (body::None)  u (`()`)  b (Bytes)  ss (SizedStream)  bs (BodyStream)
 //!          xs (raw MessageBody, BodySize::Stream)  xz (raw MessageBody, BodySize::Sized(total))
-//!   items  `.`-separated: <len> chunk of that many bytes | p Pending once | e body error | - none
+//!   items  `.`-separated: <len> chunk of that many bytes | <n>x<len> n always-ready chunks of len bytes | p Pending once | e body error | - none
 //!   hdrs   `,`-separated name=value set by the handler, `-` none
 //!   client `.`-separated: a release every chunk at once | b<n> release when â‰¥ n bytes are unreleased or
 //!          when the connection has stalled | d<ms> virtual delay before a stalled stream releases |
 //!          r<k> RST_STREAM once â‰¥ k body bytes were received (r0: right after the response head) |
+//!          q<j> send this request only after the client is done with stream j (e.g. has reset it) |
 //!          h never release capacity on this stream (ends `held` when the body does not fit the window)
 //! Output: one `;`-separated record per stream `k=<status>|<headers sorted by name>|<len>|<fnv32>|<end>`,
 //! end âˆˆ eos | err | rst | held | hang (len/hash only for eos).
@@ -44,7 +45,8 @@ const RULE: &str = "cases = one HTTP/2 connection each: client stream window w â
 duplex pipe size, 1â€“4 concurrent streams; per stream a scripted handler (method GET/HEAD/POST, status incl. 204/304, \
 body kind None/()/Bytes/SizedStream/BodyStream/raw MessageBody with chunk lists incl. empty chunks, chunks larger than the \
 window and CHUNK_SIZE, Pending, body error; handler headers incl. connection-specific ones and content-length) and a scripted \
-client (release per chunk / in batches / only when stalled, RST_STREAM after k bytes). non-trivial = at least one stream \
+client (release per chunk / in batches / only when stalled / never, RST_STREAM after k bytes, request sent only after another \
+stream was reset); long always-ready bodies (thousands of chunks) reset mid-body, the handler's body instrumented to count what the sender pulls. non-trivial = at least one stream \
 received at least one body byte; distinct = distinct (case, output) hashes";
 
 // ---------------------------------------------------------------------------------------------
@@ -81,6 +83,8 @@ struct Spec {
     reset_at: Option<usize>,
     /// the client never releases capacity on this stream (and resets it once it is clear nothing more comes)
     hold: bool,
+    /// the request is sent only after the client is done with stream `after` (eos / reset / error)
+    after: Option<usize>,
 }
 
 #[derive(Clone, Debug)]
@@ -126,6 +130,15 @@ fn parse_spec(tok: &str) -> Option<Spec> {
     let mut items = Vec::new();
     if f[4] != "-" {
         for it in f[4].split('.') {
+            if let Some((cnt, len)) = it.split_once('x') {
+                // <count>x<len>: a long run of always-ready chunks
+                let (cnt, len): (usize, usize) = (cnt.parse().ok()?, len.parse().ok()?);
+                if cnt > 100_000 || cnt.saturating_mul(len) > 4_000_000 {
+                    return None;
+                }
+                items.extend(std::iter::repeat(Item::Chunk(len)).take(cnt));
+                continue;
+            }
             items.push(match it {
                 "p" => Item::Pend,
                 "e" => Item::Err,
@@ -140,7 +153,7 @@ fn parse_spec(tok: &str) -> Option<Spec> {
             hdrs.push((n.to_owned(), v.to_owned()));
         }
     }
-    let (mut batch, mut delay_ms, mut reset_at, mut hold) = (None, 10, None, false);
+    let (mut batch, mut delay_ms, mut reset_at, mut hold, mut after) = (None, 10, None, false, None);
     for c in f[6].split('.') {
         match c.as_bytes().first() {
             Some(b'a') => batch = None,
@@ -148,10 +161,11 @@ fn parse_spec(tok: &str) -> Option<Spec> {
             Some(b'b') => batch = Some(c[1..].parse().ok()?),
             Some(b'd') => delay_ms = c[1..].parse().ok()?,
             Some(b'r') => reset_at = Some(c[1..].parse().ok()?),
+            Some(b'q') => after = Some(c[1..].parse().ok()?),
             _ => return None,
         }
     }
-    Some(Spec { head, post, status, kind, items, hdrs, batch, delay_ms, reset_at, hold })
+    Some(Spec { head, post, status, kind, items, hdrs, batch, delay_ms, reset_at, hold, after })
 }
 
 fn parse_case(line: &str) -> Option<Case> {
@@ -224,10 +238,28 @@ fn total(items: &[Item]) -> usize {
     items.iter().map(|i| if let Item::Chunk(n) = i { *n } else { 0 }).sum()
 }
 
-fn poll_script(q: &mut VecDeque<Ev>, cx: &mut Context<'_>) -> Poll<Option<Result<Bytes, std::io::Error>>> {
+/// what the sender pulled out of a scripted body (harness-side instrumentation of *our* handler's body)
+#[derive(Clone, Debug, Default)]
+struct PullStat {
+    /// bytes of all chunks handed out so far
+    bytes: usize,
+    /// length of the chunk handed out last
+    last: usize,
+    chunks: usize,
+}
+
+type Probe = Rc<RefCell<PullStat>>;
+
+fn poll_script(q: &mut VecDeque<Ev>, probe: &Probe, cx: &mut Context<'_>) -> Poll<Option<Result<Bytes, std::io::Error>>> {
     match q.pop_front() {
         None => Poll::Ready(None),
-        Some(Ev::Chunk(b)) => Poll::Ready(Some(Ok(b))),
+        Some(Ev::Chunk(b)) => {
+            let mut p = probe.borrow_mut();
+            p.bytes += b.len();
+            p.last = b.len();
+            p.chunks += 1;
+            Poll::Ready(Some(Ok(b)))
+        }
         Some(Ev::Pend) => {
             cx.waker().wake_by_ref();
             Poll::Pending
@@ -240,12 +272,13 @@ fn poll_script(q: &mut VecDeque<Ev>, cx: &mut Context<'_>) -> Poll<Option<Result
 }
 
 /// a `Stream` for BodyStream / SizedStream
-struct ScriptStream(VecDeque<Ev>);
+struct ScriptStream(VecDeque<Ev>, Probe);
 
 impl Stream for ScriptStream {
     type Item = Result<Bytes, std::io::Error>;
     fn poll_next(self: Pin<&mut Self>, cx: &mut Context<'_>) -> Poll<Option<Self::Item>> {
-        poll_script(&mut self.get_mut().0, cx)
+        let this = self.get_mut();
+        poll_script(&mut this.0, &this.1, cx)
     }
 }
 
@@ -253,6 +286,7 @@ impl Stream for ScriptStream {
 struct RawBody {
     size: BodySize,
     q: VecDeque<Ev>,
+    probe: Probe,
 }
 
 impl MessageBody for RawBody {
@@ -261,11 +295,12 @@ impl MessageBody for RawBody {
         self.size
     }
     fn poll_next(self: Pin<&mut Self>, cx: &mut Context<'_>) -> Poll<Option<Result<Bytes, Self::Error>>> {
-        poll_script(&mut self.get_mut().q, cx)
+        let this = self.get_mut();
+        poll_script(&mut this.q, &this.probe, cx)
     }
 }
 
-fn build_response(k: usize, s: &Spec) -> Response<BoxBody> {
+fn build_response(k: usize, s: &Spec, probe: &Probe) -> Response<BoxBody> {
     let mut rb = Response::build(StatusCode::from_u16(s.status).unwrap_or(StatusCode::OK));
     for (n, v) in &s.hdrs {
         rb.append_header((n.as_str(), v.as_str()));
@@ -275,10 +310,10 @@ fn build_response(k: usize, s: &Spec) -> Response<BoxBody> {
         Kind::None => BoxBody::new(actix_http::body::None::new()),
         Kind::Unit => BoxBody::new(()),
         Kind::Bytes => BoxBody::new(content(k, 0, tot)),
-        Kind::SizedStream => BoxBody::new(SizedStream::new(tot as u64, ScriptStream(script(k, &s.items)))),
-        Kind::BodyStream => BoxBody::new(BodyStream::new(ScriptStream(script(k, &s.items)))),
-        Kind::RawStream => BoxBody::new(RawBody { size: BodySize::Stream, q: script(k, &s.items) }),
-        Kind::RawSized => BoxBody::new(RawBody { size: BodySize::Sized(tot as u64), q: script(k, &s.items) }),
+        Kind::SizedStream => BoxBody::new(SizedStream::new(tot as u64, ScriptStream(script(k, &s.items), probe.clone()))),
+        Kind::BodyStream => BoxBody::new(BodyStream::new(ScriptStream(script(k, &s.items), probe.clone()))),
+        Kind::RawStream => BoxBody::new(RawBody { size: BodySize::Stream, q: script(k, &s.items), probe: probe.clone() }),
+        Kind::RawSized => BoxBody::new(RawBody { size: BodySize::Sized(tot as u64), q: script(k, &s.items), probe: probe.clone() }),
     };
     rb.message_body(body).unwrap_or_else(|_| Response::new(StatusCode::INTERNAL_SERVER_ERROR).map_into_boxed_body())
 }
@@ -294,6 +329,7 @@ struct Got {
     end: &'static str,
     head_seen: bool,
     detail: String,
+    pulled: PullStat,
 }
 
 const STALL_LIMIT: usize = 40;
@@ -508,6 +544,8 @@ async fn scenario_inner(case: Case, log: PollLog) -> Vec<Got> {
     tokio::time::pause();
     let specs = Rc::new(case.streams.clone());
     let hspecs = specs.clone();
+    let probes: Rc<Vec<Probe>> = Rc::new(specs.iter().map(|_| Probe::default()).collect());
+    let hprobes = probes.clone();
     let factory = HttpService::build()
         .keep_alive(KeepAlive::Disabled)
         .client_request_timeout(Duration::ZERO)
@@ -515,6 +553,7 @@ async fn scenario_inner(case: Case, log: PollLog) -> Vec<Got> {
         .h2_initial_window_size(case.sw)
         .h2(fn_service(move |mut req: Request| {
             let specs = hspecs.clone();
+            let probes = hprobes.clone();
             async move {
                 let k: usize = req.path().trim_start_matches('/').parse().unwrap_or(0);
                 let spec = specs.get(k).cloned();
@@ -528,7 +567,7 @@ async fn scenario_inner(case: Case, log: PollLog) -> Vec<Got> {
                     }
                 }
                 let res = match spec {
-                    Some(s) => build_response(k, &s),
+                    Some(s) => build_response(k, &s, &probes[k]),
                     None => Response::new(StatusCode::NOT_FOUND).map_into_boxed_body(),
                 };
                 Ok::<_, Infallible>(res)
@@ -569,6 +608,9 @@ async fn scenario_inner(case: Case, log: PollLog) -> Vec<Got> {
         let _ = conn.await;
     });
     let mut tasks = Vec::new();
+    // done[k]: the client is finished with stream k (for `q<j>` sequencing)
+    let done: Rc<Vec<(std::cell::Cell<bool>, tokio::sync::Notify)>> =
+        Rc::new(specs.iter().map(|_| (std::cell::Cell::new(false), tokio::sync::Notify::new())).collect());
     for (k, spec) in specs.iter().enumerate() {
         let method = if spec.head {
             http::Method::HEAD
@@ -578,22 +620,34 @@ async fn scenario_inner(case: Case, log: PollLog) -> Vec<Got> {
             http::Method::GET
         };
         let req = http::Request::builder().method(method).uri(format!("http://localhost/{k}")).body(()).unwrap();
-        let ready = tokio::time::timeout(Duration::from_secs(30), std::future::poll_fn(|cx| send_req.poll_ready(cx))).await;
-        if !matches!(ready, Ok(Ok(()))) {
-            gots[k].borrow_mut().end = "hang";
-            gots[k].borrow_mut().detail = "send_request not ready".into();
-            continue;
-        }
-        match send_req.send_request(req, spec.post.is_none()) {
-            Ok((resp, tx)) => {
-                tasks.push(actix_rt::spawn(client_stream(spec.clone(), resp, tx, gots[k].clone())));
+        let (spec, got, done, mut send_req) = (spec.clone(), gots[k].clone(), done.clone(), send_req.clone());
+        tasks.push(actix_rt::spawn(async move {
+            if let Some(j) = spec.after.filter(|j| *j < k) {
+                let wait = async {
+                    while !done[j].0.get() {
+                        done[j].1.notified().await;
+                    }
+                };
+                let _ = tokio::time::timeout(Duration::from_secs(1_800), wait).await;
             }
-            Err(e) => {
-                let mut g = gots[k].borrow_mut();
-                g.end = "err";
-                g.detail = format!("send_request: {e}");
+            let ready = tokio::time::timeout(Duration::from_secs(30), std::future::poll_fn(|cx| send_req.poll_ready(cx))).await;
+            if !matches!(ready, Ok(Ok(()))) {
+                let mut g = got.borrow_mut();
+                g.end = "hang";
+                g.detail = "send_request not ready".into();
+            } else {
+                match send_req.send_request(req, spec.post.is_none()) {
+                    Ok((resp, tx)) => client_stream(spec, resp, tx, got).await,
+                    Err(e) => {
+                        let mut g = got.borrow_mut();
+                        g.end = "err";
+                        g.detail = format!("send_request: {e}");
+                    }
+                }
             }
-        }
+            done[k].0.set(true);
+            done[k].1.notify_waiters();
+        }));
     }
     // belt and braces: no case may block the run, whatever the code under test does
     let _ = tokio::time::timeout(Duration::from_secs(3_600), async {
@@ -605,15 +659,19 @@ async fn scenario_inner(case: Case, log: PollLog) -> Vec<Got> {
     for t in &tasks {
         t.abort();
     }
+    // let what the client queued last (an RST_STREAM, a window update) reach the server and be acted upon
+    tokio::time::sleep(Duration::from_millis(20)).await;
     drop(send_req);
     conn_task.abort();
     server.abort();
     gots.iter()
-        .map(|g| {
+        .zip(probes.iter())
+        .map(|(g, p)| {
             let mut g = g.borrow().clone();
             if g.end.is_empty() {
                 g.end = "hang";
             }
+            g.pulled = p.borrow().clone();
             g
         })
         .collect()
@@ -750,6 +808,20 @@ fn oracle(k: usize, s: &Spec, g: &Got, raw: bool, w: usize) -> Option<(String, S
                 return f("body-bytes", format!("received {} bytes, handler produced {}", g.body.len(), produced.len()));
             }
             None
+        }
+        "rst" | "held" if !raw && g.pulled.bytes.saturating_sub(g.pulled.last) > g.body.len() + w => {
+            // Every chunk but the last one pulled has been handed to h2 completely, and h2 accepts no more than
+            // the window the client opened: initial window + what it released (<= what it received). More than
+            // that means the sender went on pulling the body of a stream that was already gone.
+            f(
+                "pulled-after-reset",
+                format!(
+                    "the sender pulled {} chunks / {} bytes from the body although the client reset the stream after {} bytes (window {w})",
+                    g.pulled.chunks,
+                    g.pulled.bytes,
+                    g.body.len()
+                ),
+            )
         }
         "held" => {
             // the client withheld the window: legitimate only if the body does not fit into it
@@ -928,6 +1000,19 @@ fn gen(ctx: &Ctx) -> Vec<String> {
             }
         }
     }
+    // long always-ready bodies reset by the peer mid-body, with a sibling that runs concurrently and a request
+    // that is only sent after the reset: the sender must stop pulling the body and the others must be answered
+    for (w, kind, rep, r) in [
+        (7usize, "xs", "20000x8", 20usize),
+        (100, "bs", "3000x50", 1),
+        (16_384, "xz", "20000x8", 40_000),
+        (65_535, "ss", "4000x40", 0),
+        (7, "xs", "p.3000x1.p.3000x1", 5),
+    ] {
+        cases.push(format!("w={w} s:G:200:{kind}:{rep}:-:a.r{r} s:G:200:b:40:-:a s:G:200:xs:5.0.3:-:a.q0"));
+        cases.push(format!("w={w} s:G:200:{kind}:{rep}:-:h s:G:200:b:40:-:a.q0"));
+    }
+    cases.push("w=65535 cw=1000000 s:G:200:xs:20000x8:-:a s:G:200:bs:3000x50:-:b1000000".to_owned());
     for n in [16_383usize, 16_384, 16_385, 32_768, 32_769, 49_153] {
         cases.push(format!("w=1000000 cw=1000000 s:G:200:xs:{n}:-:a s:G:200:xz:{n}.1:-:b1000000"));
     }
@@ -956,6 +1041,23 @@ fn gen(ctx: &Ctx) -> Vec<String> {
         }
         if rng.chance(1, 6) {
             toks.push("raw".to_owned());
+        }
+        if rng.chance(1, 10) {
+            // the reset-mid-long-body family, randomised
+            let kind = *rng.pick(&["xs", "xs", "bs", "ss", "xz"]);
+            let (cnt, len) = *rng.pick(&[(20_000usize, 8usize), (3000, 50), (6000, 1), (1500, 100)]);
+            let r = *rng.pick(&[0usize, 1, w / 2 + 1, w, 3 * w + 1]);
+            let r = r.min(cnt * len / 2);
+            let pre = if rng.chance(1, 3) { "p." } else { "" };
+            let cl = if rng.chance(1, 4) { "b1000000" } else { "a" };
+            toks.push(format!("s:G:200:{kind}:{pre}{cnt}x{len}:-:{cl}.r{r}"));
+            let follow = if rng.chance(1, 2) { ".q0" } else { "" };
+            toks.push(format!("s:G:200:b:{}:-:a{follow}", *rng.pick(&[0usize, 10, 300])));
+            if rng.chance(1, 2) {
+                toks.push(format!("s:{}:200:xs:5.0.3:x-a=1:a.q0", if rng.chance(1, 4) { "H" } else { "G" }));
+            }
+            cases.push(toks.join(" "));
+            continue;
         }
         let ns = rng.range(1, 4);
         let big = i % 8 == 0;
